@@ -516,6 +516,40 @@ func selfReferential(r *schema.Record) bool {
 	return v
 }
 
+// reaches reports whether target occurs somewhere inside x.
+func reaches(x, target *schema.Record) bool {
+	seen := map[*schema.Record]bool{}
+	var rec func(x *schema.Record) bool
+	var typ func(t *schema.Type) bool
+	typ = func(t *schema.Type) bool {
+		switch t.Kind {
+		case schema.ArrayT, schema.MapT:
+			return typ(t.Elem)
+		case schema.RecT:
+			return t.Rec == target || rec(t.Rec)
+		}
+		return false
+	}
+	rec = func(x *schema.Record) bool {
+		if seen[x] {
+			return false
+		}
+		seen[x] = true
+		for _, f := range x.Fields {
+			if typ(f.Type) {
+				return true
+			}
+		}
+		for _, b := range x.Branches {
+			if b.Rec == target || rec(b.Rec) {
+				return true
+			}
+		}
+		return false
+	}
+	return rec(x)
+}
+
 func recValues(r *schema.Record, depth int, limit int) []*RecValue {
 	if (depth > 3 && selfReferential(r)) || depth > 12 {
 		// recursion guard for self-referential records: only the smallest values
@@ -525,7 +559,7 @@ func recValues(r *schema.Record, depth int, limit int) []*RecValue {
 		case schema.Union:
 			// pick the first non-recursive branch
 			for i, b := range r.Branches {
-				if b.Rec.Kind == schema.Struct {
+				if b.Rec.Kind == schema.Struct && !reaches(b.Rec, r) {
 					vs := RecValues(b.Rec, depth+1, 1)
 					if len(vs) > 0 {
 						return []*RecValue{{R: r, Branch: i, Inner: vs[0]}}
